@@ -232,6 +232,17 @@ def explore(ctx):
                  "reqs": [], "rules": [], "unregistered": [], "ireqs": []}
     run_hist(ctx, base, tidy_spec, [("iter", "h1"), ("iter", "h1"), ("iter", "h1")], {"scenario": "tidy-up"})
     ctx.count("history-tidy-up")
+    # copies merely marked removable go only from NON-archive nodes below their minimum free space
+    rm_spec = {"groups": [{"name": f"g{i}"} for i in (1, 2, 3, 4)],
+               "nodes": [{"name": "a1", "group": "g1", "stype": "A", "host": "h1", "active": True, "username": "u", "address": "addr", "min_avail_gb": 10 ** 7},
+                         {"name": "a2", "group": "g2", "stype": "A", "host": "h1", "active": True, "username": "u", "address": "addr"},
+                         {"name": "a3", "group": "g3", "stype": "A", "host": "h1", "active": True, "username": "u", "address": "addr"},
+                         {"name": "f1", "group": "g4", "stype": "F", "host": "h1", "active": True, "username": "u", "address": "addr", "min_avail_gb": 10 ** 7}],
+               "acqs": ["acq1"], "files": [{"acq": "acq1", "name": "f0", "size": 13}, {"acq": "acq1", "name": "sub/f1", "size": 150}],
+               "copies": [{"file": i, "node": n, "has": "Y", "wants": ("M" if n in ("a1", "f1") else "Y")} for i in (0, 1) for n in ("a1", "a2", "a3", "f1")],
+               "reqs": [], "rules": [], "unregistered": [], "ireqs": []}
+    run_hist(ctx, base, rm_spec, [("iter", "h1"), ("iter", "h1")], {"scenario": "removable-on-archive"})
+    ctx.count("history-removable-on-archive")
     # a released copy that is the source of a pending transfer stays (copy ids differ from file ids: the second file's copies come later)
     for wants in ("N", "M"):
         nodes = [{"name": f"n{i}", "group": f"g{i}", "stype": "A" if i != 1 or wants == "N" else "F", "host": "h1", "active": True, "username": "u", "address": "addr"} for i in (1, 2, 3)]
